@@ -94,7 +94,10 @@ def run_matrix(tier, seed, report):
     n_eval = 0
     lists = {"inline-3x4": (elems[:3], elems[2:6]), "inline-9x11": (elems[:9], elems[4:15]),
              "serial-10x12": (elems[:10], elems[3:15]), "serial-12x10": (elems[2:14], elems[:10]),
-             "square-16": (elems[:16], elems[:16])}
+             "square-16": (elems[:16], elems[:16]),
+             # many columns: with 1 or 2 workers the pool hands out chunks of several columns (chunk size M // (16 cpu) + 1 >= 2),
+             # so whatever a worker returns for one column must not be shared with the next one of the same chunk
+             "wide-6x40": (elems[:6], elems[:40])}
     workers = [1, 2, 3, 16] if tier == "quick" else list(range(1, 17))
     tmp = tempfile.mkdtemp(prefix="stbem_cache_")
     real_cpu = mp.cpu_count
@@ -115,7 +118,7 @@ def run_matrix(tier, seed, report):
                 _other2 = SingleLayerOperator(mesh, pw_exact=not pw, quad_order=4)
             for w in workers:
                 slmod.mp.cpu_count = lambda w=w: w
-                for name in ("serial-10x12", "serial-12x10"):
+                for name in ("serial-10x12", "serial-12x10") + (("wide-6x40",) if w <= 2 else ()):
                     te, tr = lists[name]
                     with quiet():
                         got = SL0.bilform_matrix(te, tr, use_mp=True)
